@@ -14,6 +14,7 @@ import (
 	"github.com/gebn/bmc/pkg/iana"
 	"github.com/gebn/bmc/pkg/ipmi"
 	"github.com/google/gopacket"
+	gplayers "github.com/google/gopacket/layers"
 )
 
 type decodable interface {
@@ -492,3 +493,5 @@ func mustAES(key [16]byte) cipher.Block {
 }
 
 func newCBCEnc(b cipher.Block, iv []byte) cipher.BlockMode { return cipher.NewCBCEncrypter(b, iv) }
+
+func layersRMCP() gopacket.LayerType { return gplayers.LayerTypeRMCP }
